@@ -204,6 +204,43 @@ var famLc = NewFamily("C17.path", func(c lcCase) (*Fail, bool) {
 	return f, len(c.Path) > 0
 })
 
+type hintCase struct {
+	Jobs       uint  `json:"jobs"`
+	Headerless bool  `json:"headerless"`
+	Hint       int64 `json:"hint"`
+	Len        int   `json:"len"`
+}
+
+func (h hintCase) String() string { return fmt.Sprintf("%d|%v|%d|%d", h.Jobs, h.Headerless, h.Hint, h.Len) }
+
+var famHint = NewFamily("C17.hint", func(h hintCase) (*Fail, bool) {
+	p := lcParams(h.Jobs, h.Headerless)
+	p.Hint = h.Hint
+	data := lcSource[:h.Len]
+	sk := &memSink{}
+	w, err := kio.NewWriterWithCtx(sk, p.ctx())
+	if err != nil {
+		return failf("harness-ctor", "%v", err), false
+	}
+	if h.Len > 0 {
+		if n, err := w.Write(data); err != nil || n != h.Len {
+			return failf("write-fails-with-size-hint", "%s: Write(%d) = (%d, %v)", h, h.Len, n, err), true
+		}
+	}
+	if err := w.Close(); err != nil {
+		return failf("close-fails-with-size-hint", "%s: %v", h, err), true
+	}
+	if got := w.GetWritten(); got != uint64(len(sk.Bytes())) {
+		return failf("getwritten-mismatch-with-size-hint", "%s: GetWritten %d, sink %d", h, got, len(sk.Bytes())), true
+	}
+	pp := p
+	res := decompress(sk.Bytes(), h.Jobs, &pp, 1000)
+	if res.Err != nil || !res.EOF || !bytes.Equal(res.Out, data) {
+		return failf("closed-stream-does-not-decode-to-accepted-bytes size-hint", "%s: a Writer given the size hint %d accepted %d bytes and closed: the stream decodes to %d bytes, err=%v", h, h.Hint, h.Len, len(res.Out), res.Err), true
+	}
+	return nil, h.Hint != int64(h.Len)
+})
+
 type retryCase struct {
 	T    string `json:"transform"`
 	E    string `json:"entropy"`
@@ -322,6 +359,19 @@ func init() {
 		}
 		c.AddStates(int64(len(states)), total, total)
 		c.Extra("bfs_depth", depth)
+		// the advisory size hint does not change the state machine: a Writer given a hint and closed without
+		// any Write (or after another number of bytes) still yields a stream that decodes to what it accepted
+		famHint.Each(c, 0, func(emit func(hintCase)) {
+			for _, jobs := range []uint{1, 2, 3} {
+				for _, hl := range []bool{false, true} {
+					for _, hint := range []int64{1, 1000, lcB, 10 * lcB} {
+						for _, n := range []int{0, 1, lcB, 2*lcB + 5} {
+							emit(hintCase{Jobs: jobs, Headerless: hl, Hint: hint, Len: n})
+						}
+					}
+				}
+			}
+		})
 		// "after a successful Close GetWritten equals the number of bytes the sink received" also when
 		// the successful Close is a retry: the sink rejects its k-th write once, Close is called again
 		famRetry.Each(c, 0, func(emit func(retryCase)) {
